@@ -5,6 +5,7 @@ import TypstyleModel.Proofs.Tokens
 import TypstyleModel.Proofs.EndToEnd
 import TypstyleModel.Proofs.Prepare
 import TypstyleModel.Proofs.ParenKept
+import TypstyleModel.Props.RouteM
 /-! C01 — formatting preserves the syntax tree (partial: printer side; the re-parse is an assumption). -/
 namespace Typstyle
 open Pretty
@@ -136,5 +137,16 @@ example : (∀ p, exampleParenX.children.find? isPattern = some p → (p.kind ==
   · decide
 /-- … and `(1)` is a body whose parentheses may go (the theorem's hypothesis fails there, as it must). -/
 example : parenOmittable (.inner .parenthesized [.leaf .leftParen "(" {}, .leaf .int "1" {}, .leaf .rightParen ")" {}] {}) = true := by decide
+
+/-- T1.3 **without a certificate** (route M): for every expression tree of the covered fragment
+(`inFrag`: literals, unary, let/destructuring assignment, show, context/if/while/return/include,
+named/keyed/spread, arrays, dictionaries, parentheses, code blocks — comments, keywords and white space
+anywhere, any node marked `@typstyle off`), every fuel, context and configuration: whatever the printer
+returns renders at every width and indent unit to a layout whose code tokens are exactly the tree's.
+Proved by induction over the knot from per-construct theorems (Proofs/Carries*.lean). -/
+theorem C01_fragment_tokens_preserved (e : Env) (fuel : Nat) (ctx : Ctx) (n : ANode) (hx : isExpr n = true) (hq : inFrag n = true)
+    (d : Twin.Doc) (k k' : St) (h : ((knot e fuel).expr ctx n).run k = .ok (d, k')) (u w : Nat) :
+    tokText (best w 0 [⟨0, .brk, d.fam u⟩]) = (specToks n).toList :=
+  (routeM_expr e fuel ctx n hx hq d k k' h u w).1
 
 end Typstyle
